@@ -254,6 +254,14 @@ Theorem C04_typed_values_own_plus_rest : forall b0 kof bof cf0 cf t s' c' g',
   own_plus_rest b0 (gh (gettc b0 cf t)) (cur (gettc b0 cf t)) c'.
 Proof. exact typed_values_ge_own. Qed.
 
+(* ... and conversely every stream of values the machine can hand to a thread IS such an oracle: [runv] is the sequential
+   interpreter with the values of the atomic reads supplied from outside (clamped from below by the world's own count,
+   which by the theorem above changes nothing); for every stream there is an oracle under which [run] performs exactly that
+   execution.  So the "for every oracle" of (8) covers everything other threads can make a thread read. *)
+Theorem C04_every_value_stream_is_an_oracle : forall (R : Type) (c : Cmd.cmd R) (av : N -> N) (m : Cmd.mem),
+  exists ex, Cmd.run c (ThreadView.with_ext m ex) = (let (o, m') := ThreadView.runv c av m in (o, ThreadView.with_ext m' ex)).
+Proof. exact (@ThreadView.every_value_stream_is_an_oracle). Qed.
+
 (* non-vacuity of (8): a foreign reference visible at EVERY atomic read (the uniqueness test never succeeds, dropping the
    last local handle frees nothing) and one that comes and goes: same texts and results as String *)
 Example C04_thread_view_example :
@@ -294,3 +302,4 @@ Print Assumptions C04_scoped_handles_typed.
 Print Assumptions C04_scoped_handles_safe.
 Print Assumptions C04_scoped_handles_released.
 Print Assumptions C04_scoped_execution_example.
+Print Assumptions C04_every_value_stream_is_an_oracle.
